@@ -13,6 +13,7 @@ import numpy as np
 import pandas as pd
 
 ID = "C07"
+WARMUP = False  # this check explores histories itself, each from the pristine state
 RULE = (
     "every history of <= 3 (<= 4 thorough) events over build(spec 0..5) / evaluate-common(slot, frame 0..3) / "
     "evaluate-group(slot, frame 0..3) / set-config(3 modes) / model_description(spec) is executed on the real code "
